@@ -104,6 +104,79 @@ def e2e_case(ctx, catalogue, infer, use_query):
         rdb.pd = saved
 
 
+def e2e_multi_case(ctx):
+    """Two relational data source sections whose databases hold tables of the SAME names (T1, T2) with the same column names but
+    different catalogue types, each mapped through an rr:sqlQuery that joins both tables, the typed columns living in the SECOND
+    table of the query.  The catalogue is emulated per (database, table, column); a column a table does not have gives an empty
+    catalogue answer, as information_schema does.  Every literal must get the natural-mapping datatype of ITS column in ITS source."""
+    import pandas as pd
+    import morph_kgc
+    from morph_kgc.data_source import relational_db as rdb
+    d = os.path.join(ctx.tmp, 'e2e_multi')
+    os.makedirs(d, exist_ok=True)
+    cat = {}
+    cfg_sections = []
+    want = set()
+    types = {0: {('T1', 'A'): ('INTEGER', XSD + 'integer'), ('T2', 'B'): ('DATE', XSD + 'date'), ('T2', 'C'): ('double precision', XSD + 'double')},
+             1: {('T1', 'A'): ('DOUBLE', XSD + 'double'), ('T2', 'B'): ('character varying', None), ('T2', 'C'): ('BOOLEAN', XSD + 'boolean')}}
+    vals = {0: {'A': '7', 'B': '2020-01-01', 'C': '2.5'}, 1: {'A': '8', 'B': 'text', 'C': 'true'}}
+    for k in (0, 1):
+        db = os.path.join(d, f'db{k}.sqlite')
+        if os.path.exists(db):
+            os.remove(db)
+        con = sqlite3.connect(db)
+        con.execute('CREATE TABLE T1 (ID TEXT, A TEXT)')
+        con.execute('CREATE TABLE T2 (ID2 TEXT, B TEXT, C TEXT)')
+        con.execute("INSERT INTO T1 VALUES ('1', ?)", (vals[k]['A'],))
+        con.execute("INSERT INTO T2 VALUES ('1', ?, ?)", (vals[k]['B'], vals[k]['C']))
+        con.commit()
+        con.close()
+        for (t, c), (ty, _) in types[k].items():
+            cat[(f'db{k}.sqlite', t, c)] = ty
+        cat[(f'db{k}.sqlite', 'T1', 'ID')] = 'text'
+        cat[(f'db{k}.sqlite', 'T2', 'ID2')] = 'text'
+        mp = os.path.join(d, f'm{k}.ttl')
+        with open(mp, 'w') as f:
+            f.write(f'''@prefix rr: <http://www.w3.org/ns/r2rml#> .
+@prefix ex: <http://ex/> .
+<http://ex/TM{k}> a rr:TriplesMap; rr:logicalTable [ rr:sqlQuery "SELECT T1.ID, T1.A, T2.B, T2.C FROM T1 JOIN T2 ON T1.ID = T2.ID2" ];
+  rr:subjectMap [ rr:template "http://ex/s{k}/{{ID}}" ];
+  rr:predicateObjectMap [ rr:predicate ex:a{k} ; rr:objectMap [ rr:column "A" ] ];
+  rr:predicateObjectMap [ rr:predicate ex:b{k} ; rr:objectMap [ rr:column "B" ] ];
+  rr:predicateObjectMap [ rr:predicate ex:c{k} ; rr:objectMap [ rr:column "C" ] ] .
+''')
+        cfg_sections.append(f'[DS{k}]\nmappings={mp}\ndb_url=sqlite:///{db}\n')
+        for col, (t, c) in (('a', ('T1', 'A')), ('b', ('T2', 'B')), ('c', ('T2', 'C'))):
+            dt = types[k][(t, c)][1]
+            want.add(f'<http://ex/s{k}/1> <http://ex/{col}{k}> "{vals[k][c]}"' + (f'^^<{dt}>' if dt else ''))
+    real = pd.read_sql_query
+
+    def fake(q, con=None, **kw):
+        m = re.search(r"typeof\('([^']*)'\) as data_type FROM '([^']*)'", q)
+        if m:
+            dbname = os.path.basename(str(getattr(getattr(con, 'engine', con), 'url', '')))
+            ty = cat.get((dbname, m.group(2), m.group(1)))
+            return pd.DataFrame({'data_type': [ty] if ty is not None else []})
+        return real(q, con=con, **kw)
+    saved = rdb.pd
+    rdb.pd = PdShim(pd, fake)
+    try:
+        cfg = '[CONFIGURATION]\ninfer_sql_datatypes=yes\nnumber_of_processes=1\nlogging_level=CRITICAL\n' + ''.join(cfg_sections)
+        try:
+            got = {t.strip() for t in morph_kgc.materialize_set(cfg)}
+        except Exception as e:   # noqa: BLE001
+            got = {f'{type(e).__name__}: {str(e)[:200]}'}
+    finally:
+        rdb.pd = saved
+    inp = {'kind': 'multi', 'sources': 2, 'query': 'join of T1 and T2, typed columns in the second table'}
+    ctx.case(inp, nontrivial=True, kind='e2e two sources, joined query', sample={'result': sorted(got)})
+    ctx.traces_validated += 1
+    if got != want:
+        ctx.violation(f'datatypes of a joined query over two sources with same-named tables: missing {sorted(want - got)[:3]}, '
+                      f'unexpected {sorted(got - want)[:3]}', {**inp, 'got': sorted(got), 'want': sorted(want)})
+    return got != want
+
+
 def run(ctx, lean, findings):
     rng = ctx.rng
     drv = ctx.get_driver() if ctx.model_available else None
@@ -165,6 +238,9 @@ def run(ctx, lean, findings):
             continue
         both(s, kind='fragments')
 
+    # (5) two sources, joined query, per-(database, table, column) catalogue
+    e2e_multi_case(ctx)
+
     # (4) end to end on SQLite with the catalogue answers stubbed
     cats = [('INTEGER', XSD + 'integer'), ('timestamp', XSD + 'dateTime'), ('varchar(20)', None), ('DOUBLE PRECISION', XSD + 'double'),
             ('boolean', XSD + 'boolean'), ('date', XSD + 'date')]
@@ -209,6 +285,8 @@ def run(ctx, lean, findings):
 
 def replay(ctx, data):
     inp = data['input']
+    if inp.get('kind') == 'multi':
+        return e2e_multi_case(ctx)
     if 'type' in inp:
         return real_lookup(inp['type']) != inp.get('expected')
     res = {t.strip() for t in e2e_case(ctx, {c: inp['catalogue_type'] for c in 'ABCDE'}, inp['infer'], inp['query_source'])}
